@@ -124,7 +124,7 @@ Fixpoint exec_with (step : market -> op -> result (market * list record)) (m : m
               end
   end.
 
-Require Import Pams.Sim Pams.SimMarketLift Pams.MarketSeries Pams.MarketExec Pams.MarketRound Pams.MarketPrice Pams.MatchQ.
+Require Import Pams.Sim Pams.SimMarketLift Pams.MarketSeries Pams.MarketExec Pams.MarketRound Pams.MarketPrice Pams.MatchQ Pams.MarketLife.
 
 Theorem every_history_of_the_source_is_a_history_of_the_model : forall ops m,
   book_ok m -> gone_here m -> 0 <= m_time m -> Forall valid_op ops ->
@@ -249,6 +249,60 @@ Proof.
   apply reachable_store_ok. apply store_ok_init.
 Qed.
 Print Assumptions the_series_are_well_stored_along_histories_of_the_source.
+
+(* ---- the transfer principle, stated once: WHATEVER the model's theorems say of the final state and the trace of a history is true of the
+   state reached and the records emitted by the source's own statements along that history ---- *)
+Theorem every_theorem_about_histories_of_the_model_is_one_about_the_source :
+  forall (P : market -> list record -> Prop) id tk mp0 f0 ops, Forall valid_op ops ->
+  P (final_state (init_market id tk mp0) (OTick f0 :: ops)) (trace (init_market id tk mp0) (OTick f0 :: ops)) ->
+  let '(m, rs) := exec_with step_src (init_market id tk mp0) (OTick f0 :: ops) in P m rs.
+Proof. intros P id tk mp0 f0 ops Hv H. rewrite (histories_of_the_source_from_setup id tk mp0 f0 ops Hv). exact H. Qed.
+Print Assumptions every_theorem_about_histories_of_the_model_is_one_about_the_source.
+
+(* ... C04: every order resting after a history of the source is within its lifetime, no id rests on both sides, the ids of departed
+   orders lie below the id counter *)
+Theorem resting_orders_are_within_their_lifetime_along_histories_of_the_source : forall id tk mp0 f0 ops, Forall valid_op ops ->
+  life_ok (fst (exec_with step_src (init_market id tk mp0) (OTick f0 :: ops))).
+Proof.
+  intros id tk mp0 f0 ops Hv. rewrite (histories_of_the_source_from_setup id tk mp0 f0 ops Hv). cbn [fst].
+  apply reachable_life_ok; [apply life_ok_init|constructor; [exact I|exact Hv]].
+Qed.
+
+(* ... C04: once the source has reported the first terminal event of an order with volume t, nothing of it rests and its fills sum to
+   accepted - t, whatever the source does afterwards *)
+Theorem a_terminal_report_is_final_along_histories_of_the_source : forall id tk mp0 f0 ops, Forall valid_op ops ->
+  let '(m, rs) := exec_with step_src (init_market id tk mp0) (OTick f0 :: ops) in
+  forall i v0 t, accepted rs i = Some v0 -> term rs i = Some t -> rest_vol m i = 0 /\ filled rs i = v0 - t.
+Proof.
+  intros id tk mp0 f0 ops Hv. rewrite (histories_of_the_source_from_setup id tk mp0 f0 ops Hv).
+  apply (terminal_volume_is_final id tk mp0 (OTick f0 :: ops)). constructor; [exact I|exact Hv].
+Qed.
+
+(* ... C04: the ids under which the source accepts orders along a history are fresh consecutive integers *)
+Theorem accepted_ids_are_fresh_and_consecutive_along_histories_of_the_source : forall id tk mp0 f0 ops, Forall valid_op ops ->
+  exists n, accepted_ids (snd (exec_with step_src (init_market id tk mp0) (OTick f0 :: ops))) =
+            map (fun k => m_next (init_market id tk mp0) + Z.of_nat k) (seq 0 n).
+Proof.
+  intros id tk mp0 f0 ops Hv. rewrite (histories_of_the_source_from_setup id tk mp0 f0 ops Hv). cbn [snd].
+  apply accepted_ids_increasing.
+Qed.
+
+(* ... C06: the clock of the source never runs backwards *)
+Theorem the_clock_never_runs_backwards_along_histories_of_the_source : forall id tk mp0 f0 ops more, Forall valid_op ops -> Forall valid_op more ->
+  m_time (fst (exec_with step_src (init_market id tk mp0) (OTick f0 :: ops))) <=
+  m_time (fst (exec_with step_src (init_market id tk mp0) (OTick f0 :: ops ++ more))).
+Proof.
+  intros id tk mp0 f0 ops more Hv Hm. rewrite (histories_of_the_source_from_setup id tk mp0 f0 ops Hv).
+  rewrite (histories_of_the_source_from_setup id tk mp0 f0 (ops ++ more)) by (apply Forall_app; split; assumption). cbn [fst].
+  change (OTick f0 :: ops ++ more) with ((OTick f0 :: ops) ++ more).
+  assert (F : forall a b m0, final_state m0 (a ++ b) = final_state (final_state m0 a) b).
+  { induction a as [|o r IH]; intros b m0; [reflexivity|]. cbn [app final_state]. destruct (step m0 o) as [[m' x]|]; apply IH. }
+  rewrite F. apply final_state_time_mono.
+Qed.
+Print Assumptions resting_orders_are_within_their_lifetime_along_histories_of_the_source.
+Print Assumptions a_terminal_report_is_final_along_histories_of_the_source.
+Print Assumptions accepted_ids_are_fresh_and_consecutive_along_histories_of_the_source.
+Print Assumptions the_clock_never_runs_backwards_along_histories_of_the_source.
 
 (* non-vacuity: the premises hold of a market after its first clock step, and a history with an order on each side, a round, a cancel of
    the rest and a clock step runs through the generated functions to a trade and a cancellation *)
